@@ -99,13 +99,19 @@ func (mailbox *BoundedMailbox) Dequeue() (msg *ReceiveContext) {
 // IsEmpty reports whether the mailbox currently has no messages.
 // This check is a snapshot and may change immediately under concurrency.
 func (mailbox *BoundedMailbox) IsEmpty() bool {
-	return mailbox.underlying.Len() == 0
+	// a disposed ring never hands out its leftovers (Dequeue returns nil): report
+	// it empty, otherwise the dispatcher keeps re-scheduling a stopped actor that
+	// "still has messages" and a worker polls it forever
+	return mailbox.underlying.IsDisposed() || mailbox.underlying.Len() == 0
 }
 
 // Len returns the current number of messages in the mailbox.
 // The value is a snapshot and may change immediately after the call under
 // concurrency.
 func (mailbox *BoundedMailbox) Len() int64 {
+	if mailbox.underlying.IsDisposed() {
+		return 0
+	}
 	return int64(mailbox.underlying.Len())
 }
 
